@@ -232,7 +232,7 @@ def _oracle_routes(f, pts, grid):
     # grid
     GV = f.grid_eval(grid)
     GJ = f.grid_jacobian(grid)
-    GH = None if matrix_valued else f.grid_hessian(grid)
+    GH = None if (matrix_valued or not is_f64(f)) else f.grid_hessian(grid)    # (non-float64: finding hessian-coeff-dtype)
     for g in np.ndindex(*[len(a) for a in grid]):
         x = tuple(reversed([float(grid[i][g[i]]) for i in range(n)]))
         sc = O.mag(x, 2)
@@ -282,20 +282,40 @@ def dyadic(rng, shape, lo=-16, hi=17, den=8.0):
     return rng.integers(lo, hi, size=shape).astype(float) / den
 
 
-def rand_func(rng, sdim, kind=None, vshape=None):
+DTYPES = [np.float64, np.float64, np.float64, np.int64, np.int32, np.float32]
+
+
+def rand_func(rng, sdim, kind=None, vshape=None, dtype=None):
+    """random spline / NURBS function; coefficient (and weight) arrays of dtype float64 / int64 / int32 / float32 —
+    the constructors keep the dtype; all values are exactly representable in every one of them"""
     from pyiga import bspline, geometry
     kvs = tuple(rand_kv(rng, small=(sdim == 3)) for _ in range(sdim))
     N = tuple(kv.numdofs for kv in kvs)
     kind = kind or str(rng.choice(['bsp', 'bsp', 'nurbs']))
+    if dtype is None:
+        dtype = DTYPES[int(rng.integers(0, len(DTYPES)))]
+    integral = np.issubdtype(dtype, np.integer)
+
+    def coeffs(shape):
+        if integral:
+            return rng.integers(-12, 13, size=shape).astype(dtype)
+        return dyadic(rng, shape).astype(dtype)
     if kind == 'bsp':
         if vshape is None:
             vshape = [(), (), (1,), (2,), (3,), (2, 2), (3, 2)][int(rng.integers(0, 7))]
-        return bspline.BSplineFunc(kvs, dyadic(rng, N + tuple(vshape)))
+        return bspline.BSplineFunc(kvs, coeffs(N + tuple(vshape)))
     else:
         if vshape is None:
             vshape = [(), (1,), (2,), (3,)][int(rng.integers(0, 4))]
-        W = rng.integers(4, 17, size=N).astype(float) / 8.0      # positive weights in [0.5, 2]
-        return geometry.NurbsFunc(kvs, dyadic(rng, N + tuple(vshape)), W)
+        if integral:
+            W = rng.integers(1, 5, size=N).astype(dtype)             # positive integer weights
+        else:
+            W = (rng.integers(4, 17, size=N).astype(float) / 8.0).astype(dtype)      # positive weights in [0.5, 2]
+        return geometry.NurbsFunc(kvs, coeffs(N + tuple(vshape)), W)
+
+
+def is_f64(f):
+    return f.coeffs.dtype == np.float64
 
 
 # ------------------------------------------------------------------------------------------------
@@ -345,8 +365,8 @@ def info_table(kvs, coords, derivs):
 class Answer:
     """canonical form of an implementation result"""
 
-    def __init__(self, kind, header=None, data=None, parts=None):
-        self.kind, self.header, self.data, self.parts = kind, header, data, parts
+    def __init__(self, kind, header=None, data=None, parts=None, f32=False):
+        self.kind, self.header, self.data, self.parts, self.f32 = kind, header, data, parts, f32
 
     @staticmethod
     def of(x):
@@ -354,14 +374,15 @@ class Answer:
         if isinstance(x, str):
             return Answer('err', x)
         if isinstance(x, tuple) and x and isinstance(x[0], np.ndarray):
-            return Answer('multi', parts=[Answer.of(t) for t in x])
+            parts = [Answer.of(t) for t in x]
+            return Answer('multi', parts=parts, f32=any(p.f32 for p in parts))
         if isinstance(x, (bspline.BSplineFunc, geometry.NurbsFunc)):
             n = len(x.kvs)
             hdr = 'F %d %d %s %s' % (1 if is_nurbs(x) else 0, 1 if getattr(x, '_isscalar', False) else 0,
                                      plist(kv.numdofs for kv in x.kvs), plist(x.coeffs.shape[n:]))
-            return Answer('arr', hdr, np.asarray(x.coeffs, dtype=float).ravel())
-        a = np.asarray(x, dtype=float)
-        return Answer('arr', plist(a.shape), a.ravel())
+            return Answer('arr', hdr, np.array(x.coeffs, dtype=float).ravel(), f32=(np.asarray(x.coeffs).dtype == np.float32))
+        a = np.array(x, dtype=float)
+        return Answer('arr', plist(a.shape), a.ravel(), f32=(np.asarray(x).dtype == np.float32))
 
     def short(self):
         if self.kind == 'err':
@@ -371,8 +392,9 @@ class Answer:
         return '%s | %s' % (self.header, ' '.join(repr(float(t)) for t in self.data[:24]))
 
 
-def compare(ans, model):
-    """None if the implementation's answer agrees with the model's line, else a description"""
+def compare(ans, model, loose=1):
+    """None if the implementation's answer agrees with the model's line, else a description.  `loose`: factor on
+    the model's tolerance (2^29 when float32 data are involved: unit roundoff 2^-24 instead of 2^-53)"""
     if ans.kind == 'err':
         return None if model == ans.header else 'implementation %s, model %s' % (ans.header, model[:80])
     if model.startswith('err-') or model in ('div0', 'bad-request'):
@@ -382,7 +404,7 @@ def compare(ans, model):
         if len(parts) != len(ans.parts):
             return 'number of results differs'
         for a, m in zip(ans.parts, parts):
-            d = compare(a, m)
+            d = compare(a, m, loose)
             if d:
                 return d
         return None
@@ -396,7 +418,7 @@ def compare(ans, model):
         v, tol = toks[2 * i], toks[2 * i + 1]
         if not math.isfinite(x):
             return 'entry %d: implementation %r' % (i, x)
-        fv, ft = Fraction(v), Fraction(tol)
+        fv, ft = Fraction(v), Fraction(tol) * loose
         if abs(Fraction(float(x)) - fv) > ft:
             return 'entry %d: implementation %r, model %.17g (tolerance %.3g)' % (i, float(x), float(fv), float(ft))
     return None
@@ -494,9 +516,10 @@ def run(ctx):
               geometry.circle(0.75), geometry.disk(1.5), geometry.semicircle(2.0),
               geometry.identity([(0.0, 0.5), (0.25, 1.0), (-1.0, 1.0)])]
 
-    def route_requests(f, tag):
+    def route_requests(f, tag, fmt_from=None, with_bd=True):
+        # fmt_from: object holding the data f WILL have when the thunks run (call-history stream)
         n = len(f.kvs)
-        fd = fmt_func(f)
+        fd = fmt_func(fmt_from if fmt_from is not None else f)
         nb = is_nurbs(f)
         matrix_valued = (not nb) and f.coeffs.ndim - n >= 2
         # single point (xyz order)
@@ -509,7 +532,10 @@ def run(ctx):
         grid = tuple(np.array(rand_coord(rng, f.kvs[i], lens[i])) for i in range(n))
         add('geval %s %s' % (fd, info_table(f.kvs, grid, 0)), (lambda: f.grid_eval(grid)), ('geval', f, grid))
         add('gjac %s %s' % (fd, info_table(f.kvs, grid, 1)), (lambda: f.grid_jacobian(grid)), ('gjac', f, grid))
-        add('ghess %s %s' % (fd, info_table(f.kvs, grid, 2)), (lambda: f.grid_hessian(grid)), ('ghess', f, grid))
+        if is_f64(f):
+            add('ghess %s %s' % (fd, info_table(f.kvs, grid, 2)), (lambda: f.grid_hessian(grid)), ('ghess', f, grid))
+        else:
+            ctx.count('skipped: grid_hessian with %s coefficients (known finding hessian-coeff-dtype)' % f.coeffs.dtype)
         # scattered (xyz order)
         npt = int(rng.integers(1, 4))
         P = tuple(np.array(rand_coord(rng, f.kvs[n - 1 - e], npt)) for e in range(n))
@@ -524,7 +550,7 @@ def run(ctx):
                 add('pweval %s %s %d' % (fd, info_table(f.kvs, P2, 0), 2 * npt),
                     (lambda: f.pointwise_eval(P2).reshape((2 * npt,) + f.coeffs.shape[n:])), ('pweval', f, P2))
         # _BoundaryFunction routes (generic boundary restriction used for reduced support)
-        if n >= 2 and not matrix_valued:
+        if with_bd and n >= 2 and not matrix_valued:
             axis, side = int(rng.integers(0, n)), int(rng.integers(0, 2))
             bf = geometry._BoundaryFunction(f, (axis, side))
             fixed = float(f.support[axis][side])
@@ -566,10 +592,21 @@ def run(ctx):
                 ang = float(rng.integers(-16, 17)) / 4.0
                 op('rotate_2d', 'rotate %s %s %s' % (fd, frac(np.sin(ang)), frac(np.cos(ang))), [],
                    (lambda: f.rotate_2d(ang)))
-            I = int(rng.integers(0, dim_out))
-            op('getitem', 'getitem %s %d' % (fd, I), [], (lambda: f[I]))
-            Is = [int(t) for t in rng.integers(0, dim_out, size=int(rng.integers(1, 4)))]
-            op('getitems', 'getitems %s %s' % (fd, plist(Is)), [], (lambda: f[Is]))
+            # __getitem__: the documented meaning is component selection, i.e. python indexing of range(dim_out);
+            # ints (also negative), index lists (also negative entries), slices (open-ended, reversed, stepped)
+            comps = list(range(dim_out))
+            for I in (int(rng.integers(0, dim_out)), -int(rng.integers(1, dim_out + 1))):
+                op('getitem', 'getitem %s %d' % (fd, comps[I]), [], (lambda I=I: f[I]))
+            Is = [int(t) for t in rng.integers(-dim_out, dim_out, size=int(rng.integers(1, 4)))]
+            op('getitems', 'getitems %s %s' % (fd, plist([comps[i] for i in Is])), [], (lambda Is=Is: f[Is]))
+            op('getitems', 'getitems %s %s' % (fd, plist([comps[i] for i in Is])), [], (lambda Is=Is: f[np.array(Is)]))
+            slices = [slice(None), slice(None, None, -1), slice(1, None), slice(None, -1), slice(-1, None), slice(None, None, 2),
+                      slice(-2, None), slice(0, 1)]
+            for k in rng.permutation(len(slices))[:3]:
+                sl = slices[int(k)]
+                if len(comps[sl]) == 0:
+                    continue
+                op('getitems', 'getitems %s %s' % (fd, plist(comps[sl])), [], (lambda sl=sl: f[sl]))
         if len(vs) <= 1:
             op('as_vector', 'asvector %s' % fd, [], (lambda: f.as_vector()))
         op('as_nurbs', 'asnurbs %s' % fd, [], (lambda: f.as_nurbs()))
@@ -613,6 +650,60 @@ def run(ctx):
         if len(ctx.samples) < 3 and n == 3:
             ctx.sample({'kvs': [kv.kv.tolist() for kv in f.kvs], 'degrees': [kv.p for kv in f.kvs],
                         'coeff_shape': list(f.coeffs.shape), 'nurbs': is_nurbs(f)})
+
+    # ---- call-history stream: one object, all routes; mutate; all routes again.  After every mutation each route must
+    # describe the CURRENT object: the model evaluates a fresh function with the data the object then has.
+    def history_requests(f):
+        from pyiga import bspline as _b, geometry as _g
+        n = len(f.kvs)
+
+        def fresh(C):
+            if is_nurbs(f):
+                h = _g.NurbsFunc(f.kvs, np.array(C), None, premultiplied=True)
+                h._isscalar = f._isscalar
+                return h
+            return _b.BSplineFunc(f.kvs, np.array(C))
+        route_requests(f, 'hist0', with_bd=False)
+        # 1. rebind the coefficient array (the idiom disk() uses): g.coeffs = np.flipud(g.coeffs)
+        C1 = np.flipud(f.coeffs).copy()
+        s1 = fresh(C1)
+        def m1():
+            f.coeffs = np.flipud(f.coeffs)
+            return f
+        add('copy %s' % fmt_func(s1), m1, ('hist:rebind', s1))
+        route_requests(f, 'hist1', fmt_from=s1, with_bd=False)
+        # 2. edit the coefficient array in place
+        idx = tuple(int(rng.integers(0, k)) for k in C1.shape[:n])
+        delta = 3 if np.issubdtype(C1.dtype, np.integer) else 0.375
+        C2 = C1.copy()
+        if is_nurbs(f):
+            C2[idx][..., :-1] += delta
+        else:
+            C2[idx] += delta
+        s2 = fresh(C2)
+        def m2():
+            if is_nurbs(f):
+                f.coeffs[idx][..., :-1] += delta
+            else:
+                f.coeffs[idx] += delta
+            return f
+        add('copy %s' % fmt_func(s2), m2, ('hist:inplace', s2))
+        route_requests(f, 'hist2', fmt_from=s2, with_bd=False)
+        # 3. restrict the support: the map itself is unchanged
+        box = tuple((float(kv.support()[0]), float(kv.support()[0]) + (float(kv.support()[1]) - float(kv.support()[0])) * 0.75) for kv in f.kvs)
+        def m3():
+            f.support = box
+            return f
+        add('copy %s' % fmt_func(s2), m3, ('hist:support', s2))
+        route_requests(f, 'hist3', fmt_from=s2, with_bd=False)
+
+    nhist = 10 if ctx.tier == 'quick' else 80
+    for k in range(nhist):
+        f = rand_func(rng, int(rng.integers(1, 3)), 'nurbs' if k % 2 == 0 else 'bsp',
+                      [(), (2,), (3,)][int(rng.integers(0, 3))], dtype=[np.float64, np.float64, np.int64][int(rng.integers(0, 3))])
+        ctx.case(('hist', f.coeffs.tobytes()), True)
+        ctx.count('call histories (routes / rebind / in-place edit / support, routes after each)')
+        history_requests(f)
 
     # binary operations: compatible value shapes, total sdim <= 3
     nbin = 60 if ctx.tier == 'quick' else 600
@@ -683,7 +774,8 @@ def run(ctx):
                 ctx.violation('geo-corr:hesspairs', 'grid_hessian packing order differs from np.triu_indices(%d)' % n,
                               {'model': g, 'numpy': want}, False)
             continue
-        d = compare(a, g)
+        loose = 2 ** 29 if (a.f32 or any(hasattr(t, 'coeffs') and np.asarray(t.coeffs).dtype == np.float32 for t in m[1:])) else 1
+        d = compare(a, g, loose)
         if d is None:
             continue
         ndis += 1
@@ -701,6 +793,7 @@ def run(ctx):
     # ---- defects of the pinned tree that the model reproduces as coded: the property itself fails there
     known_probes(ctx)
     probe_copy_support(ctx)
+    probe_hessian_dtype(ctx)
     design_observations(ctx)
 
     # ---- monitor: no operation altered an argument object
@@ -769,6 +862,29 @@ def known_probes(ctx):
             ctx.violation('nurbs-scalar-flag-lost', 'NurbsFunc.%s of a scalar-valued NURBS function is (1,)-vector-valued: output_shape %s instead of %s, '
                           'grid_eval has an extra axis' % (what, h.output_shape(), nf.output_shape()),
                           {'construct': 'NurbsFunc((kv,kv), arange(16.).reshape(4,4), ones((4,4))).' + what, 'output_shape': list(h.output_shape())}, True)
+
+
+def probe_hessian_dtype(ctx):
+    """grid_hessian allocates its result with the dtype of the coefficient array"""
+    from pyiga import bspline, geometry
+    kv = bspline.make_knots(2, 0.0, 1.0, 2)
+    C = (np.arange(16).reshape(4, 4) * 3 % 7)
+    grid = (np.array([0.3, 0.6]), np.array([0.2]))
+    for dt in (np.int64, np.int32, np.float32):
+        for what, mk in (('BSplineFunc', lambda d: bspline.BSplineFunc((kv, kv), C.astype(d))),
+                         ('NurbsFunc', lambda d: geometry.NurbsFunc((kv, kv), C.astype(d), (C % 3 + 1).astype(d)))):
+            f = mk(dt)
+            H = np.asarray(f.grid_hessian(grid), dtype=float)
+            O = Oracle(f)
+            want = np.array([[O.hessian((float(grid[1][j]), float(grid[0][i]))) for j in range(1)] for i in range(2)], dtype=float)
+            err = float(np.abs(H - want).max())
+            if err > 1e-9 * (1 + np.abs(want).max()):
+                ctx.violation('hessian-coeff-dtype', '%s.grid_hessian with %s coefficients is off by %.3g: the result array is allocated with the dtype of '
+                              'the coefficients (values truncated to integers / rounded to single precision), while grid_eval and grid_jacobian are exact'
+                              % (what, np.dtype(dt).name, err),
+                              {'construct': '%s((kv,kv), (arange(16).reshape(4,4)*3 %% 7).astype(%s)...).grid_hessian(([.3,.6],[.2]))' % (what, np.dtype(dt).name),
+                               'got': H.ravel().tolist()[:6], 'expected': want.ravel().tolist()[:6]}, True)
+                break
 
 
 def probe_copy_support(ctx):
@@ -1008,8 +1124,15 @@ def oracle_unary(name, f, rng):
         for I in range(dim_out):
             d = same(f[I], lambda v: np.asarray(v)[..., I], '__getitem__(%d)' % I)
             if d: return d
-        Is = list(range(dim_out))[::-1]
-        return same(f[Is], lambda v: np.asarray(v)[..., Is], '__getitem__(%s)' % Is)
+        for I in range(-dim_out, 0):
+            d = same(f[I], lambda v: np.asarray(v)[..., I], '__getitem__(%d)' % I)
+            if d: return d
+        forms = [list(range(dim_out))[::-1], [-1] + list(range(dim_out)), np.array([-1, 0]), slice(None), slice(None, None, -1),
+                 slice(1, None) if dim_out > 1 else slice(None), slice(-1, None), slice(None, None, 2)]
+        for I in forms:
+            d = same(f[I], lambda v: np.asarray(v)[..., I], '__getitem__(%r)' % (I,))
+            if d: return d
+        return None
     if name in ('as_vector', 'as_nurbs', 'copy'):
         g = {'as_vector': f.as_vector, 'as_nurbs': f.as_nurbs, 'copy': f.copy}[name]()
         return same(g, lambda v: v, name)
